@@ -625,10 +625,24 @@ def race_stress(run, seconds):
     import glob
     logbase = os.path.join(run.dir, "racelog")
     out = os.path.join(run.dir, "stress.results.ndjson")
-    run.harness_cmd(["race", "-out", out, "-seconds", str(seconds)], race=True,
-                    env={"GORACE": "log_path=%s halt_on_error=0 exitcode=0" % logbase}, timeout=seconds + 300)
+    crashed = None
+    try:
+        run.harness_cmd(["race", "-out", out, "-seconds", str(seconds)], race=True,
+                        env={"GORACE": "log_path=%s halt_on_error=0 exitcode=0" % logbase}, timeout=seconds + 300)
+    except vp.Infra as e:
+        # the Go runtime ends the process on unsynchronised map access: that is the real code failing in concurrent use
+        crashtext = str(e)
+        m = re.search(r"fatal error: concurrent map[^\n]*", crashtext)
+        if not m:
+            raise
+        crashed = m.group(0)
     bad = []
-    for line in open(out):
+    if crashed:
+        frames = re.findall(r"github\.com/textwire/textwire/v2[^\s(]*\.([A-Za-z0-9_().*]+)\(", crashtext)
+        bad.append({"id": "stress-crash", "status": "viol", "kind": "concurrent-map-access", "site": frames[0] if frames else "?",
+                    "family": "api", "msg": "concurrent calls ended the process: %s (in %s)" % (crashed, frames[0] if frames else "?"),
+                    "tags": ["stress"], "case": {"id": "stress-crash"}})
+    for line in (open(out) if os.path.exists(out) else []):
         r = json.loads(line)
         if r["status"] == "ok":
             for k, v in (r.get("stats") or {}).items():
